@@ -101,7 +101,7 @@ FAST = (
     "all unordered pairs (both directions evaluated) of the enumerated circuits of <= 2 ops over ALPHA on (2e,2p,1c) "
     "[quick: 13(+1)-op alphabet, 183 (211) circuits; thorough: 22(+1)-op alphabet, 507 (553) circuits] + near-miss pairs (role swap, gate change, wrapper reversal / wrapper gate change, "
     "register move, drop, duplicate, adjacent swap, renaming, wrapping, identity padding, different register counts) of "
-    "seeded random circuits of <= 6 ops on <= (3e,2p,2c) [quick 300 bases, thorough 4000]"
+    "seeded random circuits of <= 6 ops on <= (3e,2p,2c) [quick 200 bases, thorough 4000]"
 )
 SLOW = (
     "all unordered pairs of circuits of <= 1 op and a seeded sample of pairs of <= 2 ops over an 8-op alphabet on (1e,1p,1c) "
@@ -110,7 +110,7 @@ SLOW = (
     "graphiq's own time-outs"
 )
 make_pair_item("direct", FAST + "; thorough: also all unordered pairs of the 259 circuits of <= 3 ops over ALPHA3 on (2e,0p,0c)")
-make_pair_item("check_redundant_circuit", FAST + " (quick: every third enumerated pair)")
+make_pair_item("check_redundant_circuit", FAST + " (quick: every sixth enumerated pair)")
 make_pair_item(
     "is_isomorphic",
     FAST + "; plus all unordered pairs of those of the 259 circuits of <= 3 ops over ALPHA3 on (2e,0p,0c) that have no parallel "
@@ -188,7 +188,7 @@ def pad_ops(ops, regs):
 @S.item(
     "compare.insensitive_to_wrapping_and_identities",
     site=CC + "direct / ged / check_redundant_circuit / remove_redundant_circuits",
-    bound="pairs (a,b) of the near-miss domain: verdict(a,b) = verdict(wrap(a),b) = verdict(a,pad(b)) and verdict(a,wrap(a)) = "
+    bound="pairs (a,b) of the near-miss domain (every 6th pair in quick, every 3rd in thorough): verdict(a,b) = verdict(wrap(a),b) = verdict(a,pad(b)) and verdict(a,wrap(a)) = "
     "verdict(a,pad(a)) = equal, for direct, check_redundant_circuit (+ GED_full on every 6th (thorough 2nd) pair of ged_targeted() and every 12th (3rd) small-register circuit against itself); "
     "remove_redundant_circuits([a, wrap(a), pad(a)]) keeps one (only for a without parallel DAG edges and without same-type "
     "classically controlled pairs - known findings C15-iso-*).  The bare is_isomorphic method compares wrappers as they stand "
@@ -462,6 +462,52 @@ def order_case(inp):
     return None
 
 
+@S.item(
+    "direct.two_digit_registers",
+    site=CC + "direct / check_redundant_circuit / CircuitStorage.add_new_circuit ; graphiq.circuit.circuit_dag:CircuitDAG.edge_from_reg",
+    bound="fixed, seed-independent family: all unordered pairs (both directions evaluated) of 20 circuits of <= 3 ops on (1 emitter, 12 photons) that touch the photons "
+    "1, 2, 10, 11 (register names 'p1' / 'p10' / 'p11': one name is a prefix of the other), and the same family with the roles of emitters and photons exchanged "
+    "(12 emitters, 1 photon); 420 pairs; exact oracle on 13 qubits",
+    exhaustive=True,
+    clause="reported equal => same registers and same compiled state (exactly); reported equal exactly when every register's wire carries the same operations; "
+    "same verdict through compare(), check_redundant_circuit and CircuitStorage - with register indices >= 10",
+)
+def two_digit_case(inp):
+    import graphiq.utils.circuit_comparison as cc
+
+    regs, a, b = inp["regs"], inp["a"], inp["b"]
+    wires = wire_view(regs, a) == wire_view(regs, b)
+    got = {}
+    got["compare(a,b,'direct')"] = bool(build(regs, a).compare(build(regs, b), method="direct"))
+    got["compare(b,a,'direct')"] = bool(build(regs, b).compare(build(regs, a), method="direct"))
+    got["check_redundant_circuit(a,b)"] = bool(cc.check_redundant_circuit(build(regs, a), build(regs, b)))
+    st = cc.CircuitStorage()
+    st.add_new_circuit(build(regs, a))
+    got["CircuitStorage refuses b after a"] = not st.add_new_circuit(build(regs, b))
+    if any(got.values()) and not equivalent("direct", regs, a, regs, b):
+        return "reported equal (" + ", ".join(k for k, v in got.items() if v) + ") but the compiled states differ"
+    bad = {k: v for k, v in got.items() if v != wires}
+    if bad:
+        return f"wires {'agree' if wires else 'differ on some register'} but " + ", ".join(f"{k} = {v}" for k, v in bad.items())
+    return None
+
+
+def two_digit_domain():
+    out = []
+    for big in ("p", "e"):
+        small = "e" if big == "p" else "p"
+        regs = [1, 12, 0] if big == "p" else [12, 1, 0]
+        s0 = [small, 0]
+        B = lambda i: [big, i]  # noqa: E731
+        circs = []
+        for i in (1, 10, 11, 2):
+            circs += [[["g", "H", B(i)]], [["cx", s0, B(i)]], [["g", "H", s0], ["cx", s0, B(i)], ["g", "H", B(i)]]]
+        circs += [[["cx", s0, B(1)], ["cx", s0, B(10)]], [["cx", s0, B(10)], ["cx", s0, B(1)]], [["cx", s0, B(1)], ["cx", s0, B(11)]], [["cz", B(1), B(10)]],
+                  [["cz", B(10), B(1)]], [["cz", B(1), B(11)]], [["cx", B(10), B(1)]], [["cx", B(1), B(10)]]]
+        out += [{"regs": regs, "a": a, "b": b} for i, a in enumerate(circs) for b in circs[i:]]
+    return out
+
+
 def order_family(regs, symbols, lengths=(2, 3)):
     """all unordered pairs of sequences over `symbols` with the same multiset"""
     groups = {}
@@ -494,6 +540,304 @@ def vfkey(d):
     import json
 
     return json.dumps(d, sort_keys=True)
+
+
+# ---------------------------------------------------------------------------------------------- histories: compare - edit - compare
+def build_nodes(regs, ops):
+    """like build(); also returns the node id of every operation (node ids survive copy())"""
+    from graphiq.circuit.circuit_dag import CircuitDAG
+
+    c = CircuitDAG(n_emitter=regs[0], n_photon=regs[1], n_classical=regs[2])
+    nodes = []
+    for d in ops:
+        o = mk_op(d)
+        c.add(o)
+        nodes.append(node_of(c, o))
+    return c, nodes
+
+
+def node_of(c, obj):
+    hit = [nd for nd in c.dag.nodes if c.dag.nodes[nd].get("op") is obj]
+    if len(hit) != 1:
+        raise AssertionError("harness: operation object not found exactly once in the DAG")
+    return hit[0]
+
+
+def content(c):
+    """observable content of a circuit: operation sequence, node ids, edge keys, node / edge dictionaries, registers, compiled state
+    (edge DATA is left out: circuit_is_isomorphic annotates the edges of the circuits it is given, by design)"""
+    from bounded.C12 import real_desc
+    from bounded.C01 import compile_traced, snapshot
+
+    out = {
+        "operation sequence": [repr(real_desc(op)) for op in c.sequence()],
+        "node set": sorted(repr(n) for n in c.dag.nodes),
+        "edge set": sorted(repr((u, v, k)) for u, v, k in c.dag.edges(keys=True)),
+        "node_dict": sorted((repr(k), sorted(repr(x) for x in v)) for k, v in c.node_dict.items() if v),
+        "edge_dict": sorted((repr(k), sorted(repr(x) for x in v)) for k, v in c.edge_dict.items() if v),
+        "registers": repr(c.register),
+    }
+    st, _ = compile_traced(c, "stabilizer", 1)
+    out["compiled state"] = [np.asarray(x).tolist() for x in snapshot(st.rep_data)]
+    return out
+
+
+def content_diff(x, y):
+    for k in x:
+        if x[k] != y[k]:
+            return k
+    return None
+
+
+def apply_steps(c, nodes, desc, steps):
+    """edits through the public CircuitDAG methods; returns the descriptor list (program order) of the edited circuit"""
+    desc = [d for d in desc]
+    nodes = list(nodes)
+    for st in steps:
+        if st[0] == "add":
+            o = mk_op(st[1])
+            c.add(o)
+            if nodes is not None:
+                nodes.append(node_of(c, o))
+            desc.append(st[1])
+        elif st[0] == "remove":
+            i = st[1]
+            c.remove_op(nodes[i])
+            del nodes[i], desc[i]
+        elif st[0] == "replace":
+            i = st[1]
+            c.replace_op(nodes[i], mk_op(st[2]))
+            desc[i] = st[2]
+        elif st[0] == "unwrap":  # semantics preserved; node ids change, only additions may follow
+            c.unwrap_nodes()
+            c.remove_identity()
+            nodes = None
+        else:
+            raise ValueError(st)
+    return desc
+
+
+FRONT = ("dedup", "storage", "storage_iso")
+RENAMING = ("is_isomorphic", "dedup", "storage_iso")
+
+
+def new_storage(kind):
+    import graphiq.utils.circuit_comparison as cc
+
+    if kind == "storage":
+        return cc.CircuitStorage()
+    return cc.CircuitStorage(check_function=lambda u, v: cc.compare_circuits(u, v, method="is_isomorphic"))
+
+
+def verdict(m, x, y):
+    """'reported equal' through a comparison method or a de-duplication front end"""
+    import graphiq.utils.circuit_comparison as cc
+
+    if m == "check_redundant_circuit":
+        return bool(cc.check_redundant_circuit(x, y))
+    if m == "dedup":
+        kept = cc.remove_redundant_circuits([x, y])
+        if not (1 <= len(kept) <= 2 and kept[0] is x and (len(kept) == 1 or kept[1] is y)):
+            raise AssertionError("remove_redundant_circuits([x, y]) did not return [x] or [x, y]")
+        return len(kept) == 1
+    if m in ("storage", "storage_iso"):
+        st = new_storage(m)
+        if not st.add_new_circuit(x):
+            raise AssertionError("an empty CircuitStorage refused a circuit")
+        return not st.add_new_circuit(y)
+    return bool(cc.compare_circuits(x, y, method=m))
+
+
+def sound(m, eqv, ca, cb, ra, a, rb, b, when):
+    if not eqv:
+        return None
+    if m not in FRONT and ca.register != cb.register:
+        return f"{when}: {m} reported equal but registers differ: {ca.register} vs {cb.register}"
+    if not equivalent("is_isomorphic" if m in RENAMING else "direct", ra, a, rb, b):
+        kind = "up to renaming of same-type registers" if m in RENAMING else "exactly"
+        return f"{when}: {m} reported equal but the compiled states differ on some outcome branch ({kind})"
+    return None
+
+
+HIST = (
+    "history: compare(a,b) twice - edit both circuits - compare(a',b') twice - compare(a', copy of a'); edits through the public methods: add(); "
+    "copy() then add() on the copies; unwrap_nodes()+remove_identity() then add(); remove_op(); replace_op() (CNOT<->CZ, H<->P); the added / replaced "
+    "operations are the same on both sides (renamed with the circuit), or differ in control/target direction, gate class or register.  Base pairs: (c,c), "
+    "(c, renamed c), (c, near miss) of seeded random circuits of <= 5 ops on <= (3e,2p,2c) [quick 400 bases, thorough 2500], restricted as "
+    "is_isomorphic.sound_symmetric (no classically controlled pair between same-type registers, no parallel DAG edges before or after the edit: the known "
+    "findings C15-iso-* cannot be hit).  Method histories m1 -> m2: direct, is_isomorphic, check_redundant_circuit each with itself; direct <-> is_isomorphic; "
+    "is_isomorphic -> remove_redundant_circuits / CircuitStorage(is_isomorphic); remove_redundant_circuits -> itself; CircuitStorage -> itself; ONE "
+    "CircuitStorage object (default / is_isomorphic check) that is offered copies of a, b, then of a', b' (list contract over the four); the three GED methods "
+    "on (1e,1p,1c)/(2e,1p,0c) circuits of <= 1 op + one added op [quick 36, thorough 300 histories].  Oracle: refsem/c15_equiv.py on the FINAL circuits"
+)
+
+
+@S.item(
+    "compare.history_edit_compare",
+    site=CC + "compare_circuits / circuit_is_isomorphic / add_control_target_to_dag / direct / ged / check_redundant_circuit / remove_redundant_circuits / CircuitStorage",
+    bound=HIST,
+    clause="reported equal => same registers and same compiled state (up to renaming for the isomorphism method) - also for circuits that were compared "
+    "before and edited since; reflexive on copies after an edit; never discards a distinct circuit; a comparison leaves the circuits' observable content unchanged",
+)
+def history_case(inp):
+    ra, a, rb, b, m1, m2, on = inp["ra"], inp["a"], inp["rb"], inp["b"], inp["m1"], inp["m2"], inp["on"]
+    ca, na = build_nodes(ra, a)
+    cb, nb = build_nodes(rb, b)
+    persist = inp.get("persist")
+    store, offered, descs = (new_storage(persist), [], []) if persist else (None, None, None)
+    relation = "direct" if persist == "storage" else "is_isomorphic"
+
+    def offer(pairs, when):
+        for c, rg, d in pairs:
+            x = c.copy()
+            offered.append(x)
+            descs.append([rg, d])
+            store.add_new_circuit(x)
+        r = list_contract(store.circuit_list, offered, descs, relation)
+        return f"{when}: {r}" if r else None
+
+    k0 = (content(ca), content(cb))
+    if persist:
+        r = offer(((ca, ra, a), (cb, rb, b)), "one CircuitStorage, first round")
+        if r:
+            return r
+    else:
+        for rep in (1, 2):
+            r = sound(m1, verdict(m1, ca, cb), ca, cb, ra, a, rb, b, f"first comparison (#{rep})")
+            if r:
+                return r
+    d = content_diff(k0[0], content(ca)) or content_diff(k0[1], content(cb))
+    if d:
+        return f"the first comparison ({persist or m1}) changed the {d} of a circuit it was given"
+    # ---- edit (the registers the circuits had before the edit stay)
+    if on == "copy":
+        ca, cb = ca.copy(), cb.copy()
+    ra2, rb2 = regs_after(ra, a), regs_after(rb, b)
+    a2 = apply_steps(ca, na, a, inp["sa"])
+    b2 = apply_steps(cb, nb, b, inp["sb"])
+    how = f"edit on {'copies' if on == 'copy' else 'the compared circuits'}: {inp['sa']} / {inp['sb']}"
+    k1 = (content(ca), content(cb))
+    # ---- compare again
+    if persist:
+        r = offer(((ca, ra2, a2), (cb, rb2, b2)), f"one CircuitStorage, round after the {how}")
+        if r:
+            return r
+    else:
+        for rep in (1, 2):
+            r = sound(m2, verdict(m2, ca, cb), ca, cb, ra2, a2, rb2, b2, f"comparison #{rep} after the {how}")
+            if r:
+                return r
+        if m2 not in FRONT and not verdict(m2, ca, ca.copy()):
+            return f"after the {how}: a circuit is reported different from its own copy by {m2}"
+    d = content_diff(k1[0], content(ca)) or content_diff(k1[1], content(cb))
+    if d:
+        return f"the comparison after the edit ({persist or m2}) changed the {d} of a circuit it was given"
+    return None
+
+
+FAST_HIST = [("direct", "direct"), ("is_isomorphic", "is_isomorphic"), ("check_redundant_circuit", "check_redundant_circuit"), ("is_isomorphic", "dedup"),
+             ("dedup", "dedup"), ("is_isomorphic", "storage_iso"), ("direct", "is_isomorphic"), ("is_isomorphic", "direct"), ("storage", "storage"),
+             ("storage_iso", "storage_iso")]
+
+
+def history_steps(r, regs, ops, b, perm):
+    """(steps for a, steps for b): scripted edits; perm renames the b side (identity unless b is a renamed copy)"""
+    Q = [["e", i] for i in range(regs[0])] + [["p", i] for i in range(regs[1])]
+    ren = lambda d: eq.rename([d], perm)[0]  # noqa: E731
+    q = Q[int(r.integers(len(Q)))]
+    others = [x for x in Q if x != q]
+    t = others[int(r.integers(len(others)))] if others else None
+    two = [i for i, d in enumerate(ops) if d[0] in ("cx", "cz")]
+    one = [i for i, d in enumerate(ops) if d[0] == "g" and d[1] in ("H", "P")]
+    kind = int(r.integers(9))
+    pre = [["unwrap"]] if r.random() < 0.2 else []
+    if kind in (0, 1) and t is not None:  # control/target direction of the added gate
+        g = ["cx", "cz"][kind]
+        same = r.random() < 0.35
+        return pre + [["add", [g, q, t]]], pre + [["add", ren([g, q, t] if same else [g, t, q])]]
+    if kind == 2 and t is not None:  # gate class of the added gate
+        same = r.random() < 0.35
+        return pre + [["add", ["cx", q, t]]], pre + [["add", ren(["cx" if same else "cz", q, t])]]
+    if kind == 3:  # added one-qubit gate: same / other gate / other register
+        x = r.random()
+        other = ["g", "H", q] if x < 0.35 else (["g", "P", q] if x < 0.7 or t is None else ["g", "H", t])
+        return pre + [["add", ["g", "H", q]]], pre + [["add", ren(other)]]
+    if kind == 4 and t is not None:  # two additions: one-qubit gate then pair
+        return pre + [["add", ["g", "H", q]], ["add", ["cx", q, t]]], pre + [["add", ren(["g", "H", q])], ["add", ren(["cx", t, q] if r.random() < 0.6 else ["cx", q, t])]]
+    if kind == 5 and ops:  # removal without insertion, both sides / one side
+        i = int(r.integers(len(ops)))
+        return [["remove", i]], ([["remove", i]] if r.random() < 0.6 else [])
+    if kind == 6 and two:  # replace_op CNOT <-> CZ, both sides / one side
+        i = two[int(r.integers(len(two)))]
+        d = ops[i]
+        new = [{"cx": "cz", "cz": "cx"}[d[0]], d[1], d[2]]
+        both = r.random() < 0.5 and len(b) == len(ops) and b[i][0] in ("cx", "cz")
+        return [["replace", i, new]], ([["replace", i, [{"cx": "cz", "cz": "cx"}[b[i][0]], b[i][1], b[i][2]]]] if both else [])
+    if kind == 7 and one:  # replace_op H <-> P
+        i = one[int(r.integers(len(one)))]
+        d = ops[i]
+        new = ["g", {"H": "P", "P": "H"}[d[1]], d[2]]
+        both = r.random() < 0.5 and len(b) == len(ops) and b[i][0] == "g" and b[i][1] in ("H", "P")
+        return [["replace", i, new]], ([["replace", i, ["g", {"H": "P", "P": "H"}[b[i][1]], b[i][2]]]] if both else [])
+    if ops and t is not None:  # removal then addition
+        i = int(r.integers(len(ops)))
+        return [["remove", i], ["add", ["cx", q, t]]], [["remove", i], ["add", ren(["cx", t, q] if r.random() < 0.5 else ["cx", q, t])]]
+    return pre + [["add", ["g", "P", q]]], pre + [["add", ren(["g", "P", q])]]
+
+
+def desc_after(desc, steps):
+    desc = list(desc)
+    for st in steps:
+        if st[0] == "add":
+            desc.append(st[1])
+        elif st[0] == "remove":
+            del desc[st[1]]
+        elif st[0] == "replace":
+            desc[st[1]] = st[2]
+    return desc
+
+
+def history_domain(seed, n_base, n_ged):
+    r = np.random.default_rng([seed, 154])
+    out = []
+    k = 0
+    while len(out) < n_base * 3:
+        base = random_base(r, True)
+        regs, ops = base
+        if len(ops) > 5 or has_parallel(ops):
+            continue
+        ident = {"e": list(range(regs[0])), "p": list(range(regs[1]))}
+        perm = {"e": [int(x) for x in r.permutation(regs[0])], "p": [int(x) for x in r.permutation(regs[1])]}
+        vs = [v for v in variants(r, base, True)[:-1] if v[0] == regs and not has_parallel(v[1])]
+        partners = [(ops, ident), (eq.rename(ops, perm), perm)] + ([(vs[int(r.integers(len(vs)))][1], ident)] if vs else [])
+        for b, pm in partners:
+            sa, sb = history_steps(r, regs, ops, b, pm)
+            if len(b) != len(ops):  # near miss with another length: index-based edits only on the a side
+                sb = [st for st in sb if st[0] in ("add", "unwrap")]
+            try:
+                a2, b2 = desc_after(ops, sa), desc_after(b, sb)
+            except IndexError:
+                continue
+            if has_parallel(a2) or has_parallel(b2):
+                continue
+            m1, m2 = FAST_HIST[k % len(FAST_HIST)]
+            case = {"ra": list(regs), "a": ops, "rb": list(regs), "b": b, "sa": sa, "sb": sb, "m1": m1, "m2": m2, "on": ("same", "copy")[(k // len(FAST_HIST)) % 2]}
+            if m1 == m2 and m1 in ("storage", "storage_iso") and (k // 7) % 2:
+                case["persist"] = m1
+            out.append(case)
+            k += 1
+    ged_cases = []
+    for j in range(n_ged):
+        rg = list(SMALL_ALPHA)[j % 2]
+        A = SMALL_ALPHA[rg]
+        base = [A[int(r.integers(len(A)))]] if r.random() < 0.8 else []
+        x = A[int(r.integers(len(A)))]
+        y = x if r.random() < 0.4 else A[int(r.integers(len(A)))]
+        if x[0] in ("cx", "cz") and r.random() < 0.5:
+            y = [x[0], x[2], x[1]]
+        m = ("GED_full", "GED_adaptive", "GED_approximate")[j % 3]
+        ged_cases.append({"ra": list(rg), "a": base, "rb": list(rg), "b": base, "sa": [["add", x]], "sb": [["add", y]], "m1": m, "m2": m, "on": ("same", "copy")[(j // 3) % 2]})
+    return out, ged_cases
 
 
 # ---------------------------------------------------------------------------------------------- domains
@@ -665,7 +1009,7 @@ def run(tier, seed):
             pairs += [{"ra": b[0], "a": b[1], "rb": v[0], "b": v[1]} for v in vs]
         return pairs, bases, fams
 
-    n_base = 4000 if thorough else 300
+    n_base = 4000 if thorough else 200
     near_x, bases_x, fams_x = near(False, n_base)
     near_i, bases_i, fams_i = near(True, n_base)
     E_x = enumerated(alpha_fast(thorough, False), regs)
@@ -674,7 +1018,7 @@ def run(tier, seed):
     E3_i = [c for c in E3 if not (EXCLUDE_PARALLEL and has_parallel(c[1]))]
     px = all_pairs(E_x)
     S.map("direct.sound_symmetric", px + near_x + (all_pairs(E3) if thorough else []), nontrivial=nontrivial_pair)
-    S.map("check_redundant_circuit.sound_symmetric", (px if thorough else px[::3]) + near_x, nontrivial=nontrivial_pair)
+    S.map("check_redundant_circuit.sound_symmetric", (px if thorough else px[::6]) + near_x, nontrivial=nontrivial_pair)
     S.map("is_isomorphic.sound_symmetric", all_pairs(E_i) + near_i + all_pairs(E3_i), nontrivial=nontrivial_pair)
 
     # GED methods: small registers
@@ -715,7 +1059,7 @@ def run(tier, seed):
     def dedup_ok(p):
         return not (EXCLUDE_PARALLEL and (has_parallel(p["a"]) or any(d[0] in ("ccx", "ccz", "mcr") and d[1][0] == d[2][0] for d in p["a"])))
 
-    ins = [dict(p, methods=["direct", "check_redundant_circuit"], dedup=(k % 3 == 0 and dedup_ok(p))) for k, p in enumerate(near_x[:: (3 if thorough else 4)])]
+    ins = [dict(p, methods=["direct", "check_redundant_circuit"], dedup=(k % 3 == 0 and dedup_ok(p))) for k, p in enumerate(near_x[:: (3 if thorough else 6)])]
     ins += [dict(p, methods=["GED_full"]) for p in ged_targeted()[:: (2 if thorough else 6)]]
     ins += [{"ra": c[0], "a": c[1], "rb": c[0], "b": c[1], "methods": ["GED_full"]} for c in small_circs[:: (3 if thorough else 12)]]
     ins += [dict(p, methods=["direct"], dedup=dedup_ok(p)) for p in all_pairs(enumerated(alpha_fast(False, True)[5:11], regs))]
@@ -754,7 +1098,11 @@ def run(tier, seed):
     st += [dict(l, mode="disabled") for l in lists_x[::10]]
     S.map("CircuitStorage.keeps_every_distinct", st, chunksize=8)
 
+    hist, hist_ged = history_domain(seed, 2500 if thorough else 400, 300 if thorough else 36)
+    S.map("compare.history_edit_compare", hist + hist_ged, nontrivial=lambda i: len(i["a"]) + len(i["b"]) >= 2, chunksize=4)
+
     S.map("direct.order_on_every_wire", order_domain(thorough), nontrivial=lambda i: i["a"] != i["b"], chunksize=16)
+    S.map("direct.two_digit_registers", two_digit_domain(), nontrivial=lambda i: i["a"] != i["b"], chunksize=4)
     S.map("is_isomorphic.classical_control_roles", ROLE_PAIRS)
     S.map("remove_redundant_circuits.classical_control_roles", ROLE_PAIRS[:4])
     S.map("is_isomorphic.parallel_edges", PARALLEL_PAIRS)
